@@ -112,14 +112,48 @@ def classify(trace, hist):
             held[key] = after
 
 
-def run(prop, tier, seed, n_cases, corpus=()):
+def exhaustive_cases(max_len=4):
+    """every sequence of at most `max_len` ops over a 14-op alphabet, from a fixed funded one-portfolio state"""
+    import itertools
+    t_open = k3_real.MON + 52200 + 600        # Monday 14:40
+    t_closed = k3_real.MON + 80000            # Monday 22:13
+    alphabet = [['subA', 100.0], ['wdA', 50.0], ['wdA', 1e9], ['create', '2'], ['subP', '1', 1000.0], ['subP', '1', -1.0],
+                ['wdP', '1', 500.0], ['wdP', '1', 1e9], ['submit', '1', 'AAA', 10], ['submit', '1', 'AAA', -10],
+                ['submit', '9', 'AAA', 1], ['update', t_open], ['update', t_closed], ['px', 'AAA', 20.5, 21.0]]
+    prefix = [['px', 'AAA', 10.25, 10.75], ['create', '1'], ['subP', '1', 5000.0]]
+    out = []
+    for n in range(0, max_len + 1):
+        for seq in itertools.product(alphabet, repeat=n):
+            out.append(dict(start=k3_real.MON + 52200, funds=10000.0, fee=['P', 0.001, 0.005], np_quotes=True,
+                            ops=prefix + [list(o) for o in seq]))
+    return out
+
+
+def _execute(case):
+    return k3_real.execute(case)
+
+
+def execute_all(cases):
+    if len(cases) < 400:
+        return [k3_real.execute(c) for c in cases]
+    import multiprocessing
+    with multiprocessing.Pool(16) as pool:
+        return pool.map(_execute, cases, chunksize=200)
+
+
+def run(prop, tier, seed, n_cases, corpus=(), exhaustive=False):
     """Generate, execute and compare. Returns dict(mismatches, oracle_findings, stats, tally, hist, samples)."""
     rng = rng_for(seed, 'K3', tier)
     cases = list(corpus)
     n_corpus = len(cases)
     for _ in range(n_cases):
         cases.append(k3_gen.gen_case(rng))
-    traces = [k3_real.execute(c) for c in cases]
+    n_exh = 0
+    if exhaustive:
+        ex = exhaustive_cases()
+        n_exh = len(ex)
+        cases += ex
+    traces = execute_all(cases)
     res_a = k3_model.run_models(traces, 'A')
     res_b = k3_model.run_models(traces, 'B')
     tally = Tally()
@@ -139,4 +173,5 @@ def run(prop, tier, seed, n_cases, corpus=()):
         stats['steps'] += len(tr.get('steps', []))
     stats['cases'] = len(cases)
     stats['corpus_cases'] = n_corpus
+    stats['exhaustive_short_sequences'] = n_exh
     return dict(cases=cases, traces=traces, mismatches=mism, oracle=oracle, stats=stats, tally=tally, hist=hist)
